@@ -223,6 +223,20 @@ def run(ctx):
             yields = [{"op": "enter", "row": ["blk", "1"]}, {"op": "y", "row": ["x", "1"] if child[0]["w"] == "x" else ["y"]}, {"op": "leave"}]
             gs.append({"name": name, "prog": yields if (name == "GenA" or rnd.random() < 0.5) else [], "acl": acl})
         observe("shared", gs, vendor, model, prefix)
+    # the built-in default of %cant_delete: any rule whose text starts with the letters `interface` (huawei/cisco `interface X`, the
+    # Juniper-family stanza `interfaces`, `interface-range`) is not deletable unless it says so, hence shareable by several generators
+    for k in range(60 if quick else 600):
+        vendor, model, prefix = profiles[k % 2]
+        w = rnd.choice(["interface", "interfaces", "interface-range", "interfac", "iface"])
+        bare = rnd.random() < 0.5
+        cda, cdb = rnd.choice([(None, None), (None, None), (None, False), (False, False), (True, None)])
+        gs = []
+        for name, cd, leaf in (("GenA", cda, "mtu"), ("GenB", cdb, "description")):
+            par = [L(w)] if bare else [L(w), STAR]
+            acl = [aclgen.mk(par, [aclgen.mk([L(leaf), STAR], [], False, None, name)], False, cd, name)]
+            yields = [{"op": "enter", "row": [w] if bare else [w, "ae1"]}, {"op": "y", "row": [leaf, "1"]}, {"op": "leave"}]
+            gs.append({"name": name, "prog": yields, "acl": acl})
+        observe("ifdefault", gs, vendor, model, prefix)
     # seeded longer programs, 1-3 generators
     for k in range(1500 if quick else 30000):
         vendor, model, prefix = profiles[k % 2]
